@@ -65,6 +65,7 @@ structure Input where
   make : CId → Name → List NewTask         -- creator oracle
   sel : List Name                          -- selected_tasks
   serial : Bool := true
+  pinnedOnce : Bool := false               -- true: the pinned dispatcher (no `evaluated_creators` list)
   continue_ : Bool := false
   utd : Name → Bool := fun _ => false      -- `get_status` says up-to-date
   fails : Name → Bool := fun _ => false    -- the task's action fails
@@ -116,6 +117,7 @@ structure Sys where
   tasks : Name → Option TDef
   targets : Name → Option Name
   created : LId → Bool               -- DelayedLoader.created
+  evaluated : List CId               -- TaskDispatcher.evaluated_creators
   gfound : GId → Bool                -- RegexGroup.found
   gtasks : GId → List Name           -- RegexGroup.tasks
   nextOid : Nat
@@ -137,7 +139,7 @@ def lookup0 (l : List (Name × α)) (k : Name) : Option α :=
   | (a, b) :: r => if a = k then some b else lookup0 r k
 
 def init (inp : Input) : Sys :=
-  { tasks := lookup0 inp.tasks0, targets := lookup0 inp.targets0, created := fun _ => false,
+  { tasks := lookup0 inp.tasks0, targets := lookup0 inp.targets0, created := fun _ => false, evaluated := [],
     gfound := fun _ => false, gtasks := inp.gtasks0, nextOid := 1000,
     nodes := fun _ => none, ready := [], waiting := [], toRun := inp.sel, dispatched := [], cur := none,
     susp := .running, running := [], stop := false, final := 0, events := [] }
@@ -247,19 +249,21 @@ def insertNew (targets : Name → Option Name) : Nat → (Name → Option TDef) 
 /-- `to_load = this_task.loader.basename or this_task.name` -/
 def toLoad (inp : Input) (l : LId) (n : Name) : Name := (inp.baseOf l).getD n
 
-/-- `if this_loader and not this_loader.created:` -/
-def mustCreate (s : Sys) (tT : TDef) : Bool :=
-  match tT.loader with
-  | some l' => !s.created l'
-  | none => false
+/-- `if (this_loader and not this_loader.created and ref not in self.evaluated_creators):`
+    (`ref = this_task.loader.creator`; the pinned code had only the first two conjuncts) -/
+def mustCreate (inp : Input) (s : Sys) (l : LId) (tT : TDef) : Bool :=
+  (match tT.loader with
+   | some l' => !s.created l'
+   | none => false) && (inp.pinnedOnce || !s.evaluated.contains (inp.creatorOf l))
 
 /-- the creator is called (that is the observable event) and its tasks are registered; when `set_implicit_deps`
     raises ("Two different tasks can't have a common target") nothing is registered -/
 def evalCreator (inp : Input) (s : Sys) (l : LId) (tname : Name) : Sys :=
   match regTargets s.targets (targetPairs (inp.make (inp.creatorOf l) tname)) with
-  | none => { s with susp := .err .dupTarget, events := Ev.creator (inp.creatorOf l) :: s.events }
+  | none => { s with susp := .err .dupTarget, evaluated := s.evaluated ++ [inp.creatorOf l],
+                     events := Ev.creator (inp.creatorOf l) :: s.events }
   | some tg =>
-    { s with targets := tg,
+    { s with targets := tg, evaluated := s.evaluated ++ [inp.creatorOf l],
              tasks := insertNew tg s.nextOid s.tasks (inp.make (inp.creatorOf l) tname),
              nextOid := s.nextOid + (inp.make (inp.creatorOf l) tname).length,
              events := Ev.creator (inp.creatorOf l) :: s.events }
@@ -314,7 +318,7 @@ def loaderStep (inp : Input) (s : Sys) (n : Name) (nd : Node) (l : LId) : Sys :=
   match s.tasks (toLoad inp l n) with
   | none => { s with susp := .err .crash }               -- `self.tasks[to_load]`: KeyError
   | some tT =>
-    if mustCreate s tT then
+    if mustCreate inp s l tT then
       match (evalCreator inp s l (toLoad inp l n)).susp with
       | .err _ => evalCreator inp s l (toLoad inp l n)
       | _ => afterCreate inp (evalCreator inp s l (toLoad inp l n)) n nd l
